@@ -605,6 +605,7 @@ func genVarCase(r *RNG, id string, o varOpts) *Case {
 		}
 	}
 	c.NonTrv = len(genes) > 0 || strings.Contains(m.refRow, "-")
+	maybeCLI(r, c, 6)
 	return c
 }
 
@@ -621,6 +622,34 @@ func runVariants(c *Case, seqs []string, names []string, annText string, annSuff
 		refID = ""
 	}
 	thr := decThr(atoi(c.Get("thrn")), max1(atoi(c.Get("thrd"))))
+	if isCLI(c) {
+		args := []string{"variants", "-a", "{dir}/ann." + annSuffix, "-t", c.Get("threads")}
+		files := map[string]string{"ann." + annSuffix: annText}
+		in := ""
+		if stdin {
+			args = append(args, "--msa", "stdin")
+			in = msaTxt
+		} else {
+			args = append(args, "--msa", "{dir}/m.fa")
+			files["m.fa"] = msaTxt
+		}
+		if refID != "" {
+			args = append(args, "-r", refID)
+		}
+		if atoi(c.Get("start")) != -1 {
+			args = append(args, "--start", c.Get("start"))
+		}
+		if atoi(c.Get("end")) != -1 {
+			args = append(args, "--end", c.Get("end"))
+		}
+		if agg {
+			args = append(args, "--aggregate", "--threshold", decStr(atoi(c.Get("thrn")), max1(atoi(c.Get("thrd")))))
+		}
+		if c.Get("append") == "1" {
+			args = append(args, "--append-snps")
+		}
+		return viaCLI(files, in, args, nil)
+	}
 	return safeRun(30*time.Second, func() (string, error) {
 		var out bytes.Buffer
 		err := variants.Variants(bytes.NewReader([]byte(msaTxt)), stdin, refID, strings.NewReader(annText), annSuffix, &out,
